@@ -1,6 +1,456 @@
-//! C17 — stub: correspondence harness not built yet.
+//! C17 — a sorted index keeps every segment in sort order, with unchanged semantics.
+//!
+//! Per real segment (fresh and merged): the sort-field values in doc-id order (deleted docs
+//! included) are sorted in the configured direction, documents without a value first (asc) /
+//! last (desc), for u64 / i64 / f64 / date / str / bytes sort fields with duplicates, missing
+//! values and extremes. Every document's stored fields, fast values, norms and postings still
+//! belong together (unique-id cross-check against an unsorted, never-merged reference index), and
+//! deletes inside a transaction hit the same ids as the sequential replay (= the unsorted twin).
+//! Model: the new→old mapping of every fresh segment equals Lean `sortOrder` (stable), the
+//! deleted doc ids equal the model's remapped-opstamp computation, merged key sequences equal
+//! Lean `kmerge`.
+use super::c04::{doc_views, gen_doc, schema_with, uids_of, Fields, Reference};
+use crate::model::nat_list;
+use crate::rng::Rng;
+use crate::segdump::dump_segment;
 use crate::Ctx;
+use serde_json::{json, Value};
+use std::collections::{BTreeMap, BTreeSet, HashMap};
+use std::panic::{catch_unwind, AssertUnwindSafe};
+use tantivy::directory::RamDirectory;
+use tantivy::index::{IndexSortByField, Order, SegmentId};
+use tantivy::indexer::NoMergePolicy;
+use tantivy::schema::{BytesOptions, DateOptions, Field, NumericOptions, FAST, STRING};
+use tantivy::{DateTime, Index, IndexSettings, IndexWriter, SegmentReader, Term};
+
+const TYPES: [&str; 6] = ["u64", "i64", "f64", "date", "str", "bytes"];
+
+#[derive(Clone, Debug, PartialEq, Eq, PartialOrd, Ord, Hash)]
+enum K {
+    Missing,
+    Num(u64),
+    Bytes(Vec<u8>),
+}
+
+/// a generated sort value
+#[derive(Clone, Debug)]
+enum V {
+    U(u64),
+    I(i64),
+    F(f64),
+    D(i64),
+    S(String),
+    B(Vec<u8>),
+}
+
+impl V {
+    fn key(&self) -> K {
+        match self {
+            V::U(v) => K::Num(*v),
+            V::I(v) => K::Num(tantivy::i64_to_u64(*v)),
+            V::F(v) => K::Num(tantivy::f64_to_u64(*v)),
+            V::D(secs) => K::Num(tantivy::i64_to_u64(secs * 1_000_000_000)),
+            V::S(s) => K::Bytes(s.as_bytes().to_vec()),
+            V::B(b) => K::Bytes(b.clone()),
+        }
+    }
+}
+
+fn gen_value(rng: &mut Rng, ty: &str, profile: u64, base: i64) -> V {
+    // profile 0: few distinct values (duplicates); 1: extremes; 2: wide random;
+    // 3: a narrow range around `base` (per transaction: disjoint or touching ranges across segments)
+    if profile == 3 {
+        let v = base + rng.below(4) as i64;
+        return match ty {
+            "u64" => V::U((v + 1_000_000) as u64),
+            "i64" => V::I(v),
+            "f64" => V::F(v as f64 / 2.0),
+            "date" => V::D(v),
+            "str" => V::S(format!("{:08}", v + 1_000_000)),
+            _ => V::B(((v + 1_000_000) as u32).to_be_bytes().to_vec()),
+        };
+    }
+    match ty {
+        "u64" => V::U(match profile { 0 => rng.below(4), 1 => *rng.pick(&[0, 1, u64::MAX, u64::MAX - 1, 1 << 63, (1 << 24) + 1, (1 << 53) + 1]), _ => rng.next_u64() }),
+        "i64" => V::I(match profile { 0 => rng.below(4) as i64 - 2, 1 => *rng.pick(&[i64::MIN, i64::MAX, -1, 0, 1, i64::MIN + 1]), _ => rng.next_u64() as i64 }),
+        "f64" => V::F(match profile { 0 => rng.below(4) as f64 - 1.5, 1 => *rng.pick(&[f64::NEG_INFINITY, f64::INFINITY, f64::MAX, f64::MIN, -0.0, 0.0, f64::MIN_POSITIVE, -f64::MIN_POSITIVE]), _ => (rng.next_u64() as i64 as f64) / 1e3 }),
+        "date" => V::D(match profile { 0 => 1_600_000_000 + rng.below(4) as i64, 1 => *rng.pick(&[0, -1, 1, -9_000_000_000, 9_000_000_000]), _ => rng.below(4_000_000_000) as i64 - 2_000_000_000 }),
+        "str" => V::S(match profile { 0 => format!("k{}", rng.below(4)), 1 => rng.pick(&["", "a", "aa", "b", "\u{10ffff}", "z", "A", "ä"]).to_string(), _ => format!("{:x}", rng.next_u64() >> rng.below(60)) }),
+        _ => V::B(match profile { 0 => vec![rng.below(3) as u8], 1 => rng.pick(&[vec![], vec![0], vec![0, 0], vec![255], vec![255, 255], vec![1]]).clone(), _ => { let n = rng.usize_below(6); rng.bytes(n) } }),
+    }
+}
+
+struct Env {
+    index: Index,
+    writer: IndexWriter,
+    f: Fields,
+    sk: Field,
+    ty: &'static str,
+    desc: bool,
+    reference: Reference,
+    key_of: HashMap<u64, K>,
+    grp_of: HashMap<u64, u64>,
+    next_uid: u64,
+    pending: BTreeSet<u64>,
+    committed: BTreeSet<u64>,
+    known_segments: BTreeSet<String>,
+}
+
+fn le_dir(desc: bool, a: &K, b: &K) -> bool {
+    if desc { a >= b } else { a <= b }
+}
+
+/// sort keys of a segment in doc-id order, read back through the fast field readers
+fn segment_keys(reader: &SegmentReader, ty: &str) -> Result<Vec<K>, String> {
+    let ff = reader.fast_fields();
+    let n = reader.max_doc();
+    let e = |e: tantivy::TantivyError| format!("sort column: {e}");
+    Ok(match ty {
+        "u64" => { let c = ff.u64("sk").map_err(e)?; (0..n).map(|d| c.first(d).map(K::Num).unwrap_or(K::Missing)).collect() }
+        "i64" => { let c = ff.i64("sk").map_err(e)?; (0..n).map(|d| c.first(d).map(|v| K::Num(tantivy::i64_to_u64(v))).unwrap_or(K::Missing)).collect() }
+        "f64" => { let c = ff.f64("sk").map_err(e)?; (0..n).map(|d| c.first(d).map(|v| K::Num(tantivy::f64_to_u64(v))).unwrap_or(K::Missing)).collect() }
+        "date" => { let c = ff.date("sk").map_err(e)?; (0..n).map(|d| c.first(d).map(|v| K::Num(tantivy::i64_to_u64(v.into_timestamp_nanos()))).unwrap_or(K::Missing)).collect() }
+        "str" => match ff.str("sk").map_err(e)? {
+            None => vec![K::Missing; n as usize],
+            Some(c) => (0..n).map(|d| match c.term_ords(d).next() { Some(o) => { let mut b = vec![]; c.ord_to_bytes(o, &mut b).unwrap(); K::Bytes(b) } None => K::Missing }).collect(),
+        },
+        _ => match ff.bytes("sk").map_err(e)? {
+            None => vec![K::Missing; n as usize],
+            Some(c) => (0..n).map(|d| match c.term_ords(d).next() { Some(o) => { let mut b = vec![]; c.ord_to_bytes(o, &mut b).unwrap(); K::Bytes(b) } None => K::Missing }).collect(),
+        },
+    })
+}
+
+/// model token of a key list: order-preserving ranks among the distinct values of the case
+fn key_tokens(keys: &[K], all: &BTreeMap<K, usize>) -> String {
+    if keys.is_empty() {
+        return "-".into();
+    }
+    keys.iter().map(|k| match k { K::Missing => "n".to_string(), k => all[k].to_string() }).collect::<Vec<_>>().join(",")
+}
+
+fn dir_name(desc: bool) -> &'static str {
+    if desc { "desc" } else { "asc" }
+}
+
+struct BatchOp {
+    /// Some(uid) = add, None = delete
+    add: Option<u64>,
+    del_uid: Option<u64>,
+    del_grp: Option<u64>,
+}
+
+fn case(ctx: &mut Ctx, case_seed: u64) {
+    let mut rng = Rng(case_seed);
+    let ty = TYPES[rng.usize_below(TYPES.len())];
+    let desc = rng.chance(1, 2);
+    let profile = rng.below(4);
+    let step: i64 = *rng.pick(&[3i64, 4, 10, -3, -4, -10]);
+    let mut base: i64 = 0;
+    let case = json!({"case_seed": case_seed.to_string(), "type": ty, "desc": desc});
+    let mut sk_field: Option<Field> = None;
+    let (schema, f) = schema_with(|sb| {
+        sk_field = Some(match ty {
+            "u64" => sb.add_u64_field("sk", FAST),
+            "i64" => sb.add_i64_field("sk", NumericOptions::default().set_fast().set_indexed()),
+            "f64" => sb.add_f64_field("sk", FAST),
+            "date" => sb.add_date_field("sk", DateOptions::default().set_fast()),
+            "str" => sb.add_text_field("sk", STRING | FAST),
+            _ => sb.add_bytes_field("sk", BytesOptions::default().set_fast().set_indexed()),
+        });
+    });
+    let sk = sk_field.unwrap();
+    let mut settings = IndexSettings::default();
+    settings.sort_by_field = Some(IndexSortByField { field: "sk".into(), order: if desc { Order::Desc } else { Order::Asc } });
+    if rng.chance(1, 3) {
+        settings.docstore_blocksize = 100;
+    }
+    let index = match Index::create(RamDirectory::create(), schema.clone(), settings) {
+        Ok(i) => i,
+        Err(e) => {
+            ctx.report.violation("oracle", "C17:index-create-failed", format!("sorted index on a {ty} field refused: {e}"), case);
+            return;
+        }
+    };
+    let writer: IndexWriter = index.writer_with_num_threads(1, 15_000_000).unwrap();
+    writer.set_merge_policy(Box::new(NoMergePolicy));
+    let mut env = Env {
+        index, writer, f, sk, ty, desc, reference: Reference::new(&schema), key_of: HashMap::new(), grp_of: HashMap::new(), next_uid: 1,
+        pending: BTreeSet::new(), committed: BTreeSet::new(), known_segments: BTreeSet::new(),
+    };
+    ctx.report.count(&format!("type:{ty}:{}", dir_name(desc)));
+    let rounds = 1 + rng.usize_below(4);
+    for _ in 0..rounds {
+        // ---- one transaction = one fresh segment --------------------------------------
+        let n = match rng.below(10) { 0 => 1, 1 => 127 + rng.usize_below(4), _ => 2 + rng.usize_below(30) };
+        let missing_rate = *rng.pick(&[0u64, 0, 1, 3, 9, 10]);
+        let mut ops: Vec<BatchOp> = vec![];
+        let mut batch_uids: Vec<u64> = vec![];
+        for _ in 0..n {
+            let uid = env.next_uid;
+            env.next_uid += 1;
+            let grp = rng.below(4);
+            let mut doc = gen_doc(&mut rng, &env.f, uid, grp, "m");
+            let key = if missing_rate > 0 && rng.below(10) < missing_rate {
+                K::Missing
+            } else {
+                let pr = if profile != 3 && rng.chance(1, 6) { 1 } else { profile };
+                let v = gen_value(&mut rng, ty, pr, base);
+                match &v {
+                    V::U(x) => doc.add_u64(env.sk, *x),
+                    V::I(x) => doc.add_i64(env.sk, *x),
+                    V::F(x) => doc.add_f64(env.sk, *x),
+                    V::D(x) => doc.add_date(env.sk, DateTime::from_timestamp_secs(*x)),
+                    V::S(x) => doc.add_text(env.sk, x),
+                    V::B(x) => doc.add_bytes(env.sk, &x[..]),
+                }
+                v.key()
+            };
+            env.reference.add(doc.clone());
+            env.writer.add_document(doc).unwrap();
+            env.key_of.insert(uid, key);
+            env.grp_of.insert(uid, grp);
+            env.pending.insert(uid);
+            batch_uids.push(uid);
+            ops.push(BatchOp { add: Some(uid), del_uid: None, del_grp: None });
+            // deletes inside the transaction: they must hit only documents added before them
+            if rng.chance(1, 6) {
+                if rng.chance(1, 2) {
+                    let g = rng.below(4);
+                    env.writer.delete_term(Term::from_field_u64(env.f.grp, g));
+                    let gone: Vec<u64> = env.pending.iter().copied().filter(|u| env.grp_of[u] == g).collect();
+                    for u in gone { env.pending.remove(&u); }
+                    ops.push(BatchOp { add: None, del_uid: None, del_grp: Some(g) });
+                } else {
+                    let u = 1 + rng.below(env.next_uid - 1);
+                    env.writer.delete_term(Term::from_field_u64(env.f.id, u));
+                    env.pending.remove(&u);
+                    ops.push(BatchOp { add: None, del_uid: Some(u), del_grp: None });
+                }
+            }
+        }
+        base += step;
+        env.writer.commit().unwrap();
+        env.committed = env.pending.clone();
+        env.reference.sync();
+        if !check_all(ctx, &mut env, "after commit", &case, Some((&batch_uids, &ops))) {
+            return;
+        }
+        // ---- maybe merge ---------------------------------------------------------------
+        let metas = env.index.searchable_segment_metas().unwrap();
+        if metas.len() >= 2 && rng.chance(2, 3) {
+            let mut ids: Vec<SegmentId> = metas.iter().map(|m| m.id()).collect();
+            ids.sort();
+            rng.shuffle(&mut ids);
+            let take = 2 + rng.usize_below(ids.len() - 1);
+            ids.truncate(take);
+            // live keys of the sources (doc-id order) for the model's k-way merge
+            let mut runs: Vec<Vec<K>> = vec![];
+            for id in &ids {
+                let seg = env.index.searchable_segments().unwrap().into_iter().find(|s| s.id() == *id).unwrap();
+                let r = SegmentReader::open(&seg).unwrap();
+                let keys = segment_keys(&r, ty).unwrap();
+                runs.push((0..r.max_doc()).filter(|d| !r.is_deleted(*d)).map(|d| keys[d as usize].clone()).collect());
+            }
+            let res = env.writer.merge(&ids).wait();
+            match res {
+                Err(e) => {
+                    ctx.report.violation("oracle", "C17:merge-failed", format!("merge of {} sorted segments ({ty} {}) failed: {e}", ids.len(), dir_name(desc)), case.clone());
+                    return;
+                }
+                Ok(mm) => {
+                    ctx.report.count("merges");
+                    if !check_all(ctx, &mut env, "after merge", &case, None) {
+                        return;
+                    }
+                    if let Some(mm) = mm {
+                        let seg = env.index.searchable_segments().unwrap().into_iter().find(|s| s.id() == mm.id());
+                        if let Some(seg) = seg {
+                            let r = SegmentReader::open(&seg).unwrap();
+                            let keys = segment_keys(&r, ty).unwrap();
+                            let mut all: BTreeMap<K, usize> = BTreeMap::new();
+                            for k in runs.iter().flatten().chain(keys.iter()) { all.insert(k.clone(), 0); }
+                            for (i, (_, v)) in all.iter_mut().enumerate() { *v = i; }
+                            let toks: Vec<String> = runs.iter().map(|r| key_tokens(r, &all)).collect();
+                            let m = ctx.model.ask(&format!("C17 kmerge {} {}", dir_name(desc), toks.join(" ")));
+                            if m != key_tokens(&keys, &all) {
+                                ctx.report.violation("model", "C17:kmerge-keys-differ", format!("key sequence of the merged segment differs from Lean kmerge ({ty} {})", dir_name(desc)), case.clone());
+                                return;
+                            }
+                            let disjoint = runs.windows(2).all(|w| w[0].iter().all(|a| w[1].iter().all(|b| le_dir(desc, a, b))));
+                            ctx.report.count(if disjoint { "merge:disjoint-ranges" } else { "merge:overlapping-ranges" });
+                        }
+                    }
+                }
+            }
+        }
+    }
+    if ctx.report.samples.len() < 4 {
+        ctx.report.sample(json!({"case": "sorted index", "type": ty, "order": dir_name(desc), "docs": env.next_uid - 1, "live": env.committed.len(), "segments": env.index.searchable_segment_metas().unwrap().len()}));
+    }
+}
+
+/// every searchable segment: sorted; every live doc = reference doc; live set = sequential replay.
+/// `fresh`: the uids and operations of the transaction that produced the newest segment.
+fn check_all(ctx: &mut Ctx, env: &mut Env, when: &str, case: &Value, fresh: Option<(&Vec<u64>, &Vec<BatchOp>)>) -> bool {
+    let (ty, desc) = (env.ty, env.desc);
+    let mut seen: BTreeSet<u64> = BTreeSet::new();
+    for seg in env.index.searchable_segments().unwrap() {
+        let sid = seg.id().uuid_string();
+        let r = match SegmentReader::open(&seg) {
+            Ok(r) => r,
+            Err(e) => {
+                ctx.report.violation("oracle", "C17:segment-unreadable", format!("{when}: {e}"), case.clone());
+                return false;
+            }
+        };
+        let keys = match segment_keys(&r, ty) {
+            Ok(k) => k,
+            Err(e) => {
+                ctx.report.violation("oracle", "C17:sort-column-unreadable", format!("{when}: {e}"), case.clone());
+                return false;
+            }
+        };
+        let uids = uids_of(&r).unwrap();
+        // (1) sorted in the configured direction, missing first (asc) / last (desc), deleted docs included
+        for d in 1..keys.len() {
+            if !le_dir(desc, &keys[d - 1], &keys[d]) {
+                let nulls = keys[d - 1] == K::Missing || keys[d] == K::Missing;
+                let key = if nulls { "C17:null-placement" } else { "C17:segment-not-sorted" };
+                ctx.report.violation("oracle", key, format!("{when}: segment {sid} ({ty} {}): doc {} has key {:?} but doc {} has key {:?}", dir_name(desc), d - 1, keys[d - 1], d, keys[d]), case.clone());
+                return false;
+            }
+        }
+        // (2) the sort value read back is the value the document was added with
+        for d in 0..keys.len() {
+            if env.key_of.get(&uids[d]) != Some(&keys[d]) {
+                ctx.report.violation("oracle", "C17:sort-value-changed", format!("{when}: segment {sid}: doc {d} (id={}) reads sort key {:?}, was added with {:?}", uids[d], keys[d], env.key_of.get(&uids[d])), case.clone());
+                return false;
+            }
+        }
+        // (3) every live doc still is the same document (stored, norms, fast values, postings)
+        let dump = match dump_segment(&seg, &r, None) {
+            Ok(d) => d,
+            Err(e) => {
+                ctx.report.violation("oracle", "C17:segment-unreadable", format!("{when}: {e}"), case.clone());
+                return false;
+            }
+        };
+        if let Err(e) = dump.well_formed() {
+            ctx.report.violation("oracle", "C17:segment-ill-formed", format!("{when}: segment {sid}: {e}"), case.clone());
+            return false;
+        }
+        for (uid, v) in doc_views(&dump, &uids, &dump.alive) {
+            if !seen.insert(uid) {
+                ctx.report.violation("oracle", "C17:duplicate-doc", format!("{when}: document id={uid} is live twice"), case.clone());
+                return false;
+            }
+            match env.reference.views.get(&uid) {
+                Some(rv) if *rv == v => {}
+                Some(rv) => {
+                    let part = if rv.payload != v.payload {
+                        let (a, b): (Vec<&str>, Vec<&str>) = (rv.payload.split('|').collect(), v.payload.split('|').collect());
+                        ["stored fields", "field norms", "fast values"][(0..a.len().min(b.len())).find(|j| a[*j] != b[*j]).unwrap_or(0).min(2)]
+                    } else {
+                        "postings (terms, tf or positions)"
+                    };
+                    ctx.report.violation("oracle", "C17:doc-parts-separated", format!("{when}: segment {sid} ({ty} {}): document id={uid} no longer matches the unsorted reference: {part} differ", dir_name(desc)), case.clone());
+                    return false;
+                }
+                None => {
+                    ctx.report.violation("oracle", "C17:unknown-doc", format!("{when}: document id={uid} was never added"), case.clone());
+                    return false;
+                }
+            }
+        }
+        // (4) fresh segment: mapping = Lean sortOrder (stable), deleted ids = Lean remapped opstamps
+        let is_new = env.known_segments.insert(sid.clone());
+        if let (true, Some((batch, ops))) = (is_new, fresh) {
+            if uids.len() == batch.len() && uids.iter().all(|u| batch.contains(u)) {
+                let pos: HashMap<u64, usize> = batch.iter().enumerate().map(|(i, u)| (*u, i)).collect();
+                let real_n2o: Vec<usize> = uids.iter().map(|u| pos[u]).collect();
+                let in_keys: Vec<K> = batch.iter().map(|u| env.key_of[u].clone()).collect();
+                let mut all: BTreeMap<K, usize> = in_keys.iter().map(|k| (k.clone(), 0)).collect();
+                for (i, (_, v)) in all.iter_mut().enumerate() { *v = i; }
+                let ktok = key_tokens(&in_keys, &all);
+                let m = ctx.model.ask(&format!("C17 sortorder {} {}", dir_name(desc), ktok));
+                if m != nat_list(&real_n2o) {
+                    ctx.report.violation("model", "C17:sort-order-differs", format!("{when}: new→old mapping of a fresh segment ({ty} {}) differs from Lean sortOrder: real {} model {}", dir_name(desc), nat_list(&real_n2o), m), case.clone());
+                    return false;
+                }
+                ctx.report.count("fresh-segment:mapping-compared");
+                if in_keys.windows(2).any(|w| w[0] == w[1]) || in_keys.iter().collect::<BTreeSet<_>>().len() < in_keys.len() {
+                    ctx.report.count("fresh-segment:duplicate-keys");
+                }
+                if in_keys.iter().any(|k| *k == K::Missing) {
+                    ctx.report.count("fresh-segment:missing-values");
+                }
+                // in-transaction deletes through remapped opstamps
+                let mut expected_dead: BTreeSet<usize> = BTreeSet::new();
+                let mut opstamp_of: HashMap<u64, usize> = HashMap::new();
+                for (i, op) in ops.iter().enumerate() {
+                    if let Some(u) = op.add { opstamp_of.insert(u, i); }
+                }
+                let opstamps: Vec<usize> = batch.iter().map(|u| opstamp_of[u]).collect();
+                let mut ndel = 0;
+                for (i, op) in ops.iter().enumerate() {
+                    if op.add.is_some() { continue; }
+                    let matches: String = batch.iter().map(|u| if op.del_uid == Some(*u) || op.del_grp == Some(env.grp_of[u]) { '1' } else { '0' }).collect();
+                    let ans = ctx.model.ask(&format!("C17 deletes {} {} {} {} {}", dir_name(desc), ktok, matches, nat_list(&opstamps), i));
+                    let mut parts = ans.split('/');
+                    let (a, b) = (parts.next().unwrap_or(""), parts.next().unwrap_or(""));
+                    if a != b {
+                        ctx.report.violation("model", "C17:model-deletes-inconsistent", format!("Lean: deletes through remapped opstamps {a} ≠ images of unsorted deletes {b}"), case.clone());
+                        return false;
+                    }
+                    for x in crate::model::parse_nat_list(a).unwrap_or_default() { expected_dead.insert(x as usize); }
+                    ndel += 1;
+                }
+                let real_dead: BTreeSet<usize> = (0..dump.max_doc as usize).filter(|d| !dump.alive[*d]).collect();
+                if real_dead != expected_dead {
+                    ctx.report.violation("oracle", "C17:delete-hit-wrong-docs", format!("{when}: fresh sorted segment ({ty} {}): deleted doc ids {:?}, the {} in-transaction deletes computed on the unsorted order and mapped give {:?}", dir_name(desc), real_dead, ndel, expected_dead), case.clone());
+                    return false;
+                }
+                if ndel > 0 { ctx.report.count("fresh-segment:in-transaction-deletes"); }
+                if !real_dead.is_empty() { ctx.report.count("fresh-segment:docs-deleted-in-transaction"); }
+                let nontrivial = real_n2o.iter().enumerate().any(|(i, o)| i != *o);
+                ctx.report.case(&format!("{ty}|{desc}|{ktok}|{ndel}"), nontrivial);
+            }
+        } else {
+            ctx.report.case(&format!("{ty}|{desc}|seg|{}|{}", keys.len(), when), keys.len() > 1);
+        }
+    }
+    if seen != env.committed {
+        let missing: Vec<&u64> = env.committed.difference(&seen).take(5).collect();
+        let extra: Vec<&u64> = seen.difference(&env.committed).take(5).collect();
+        ctx.report.violation("oracle", "C17:deletes-differ-from-unsorted", format!("{when} ({ty} {}): live docs differ from the sequential replay / unsorted twin: missing {missing:?} unexpected {extra:?}", dir_name(desc)), case.clone());
+        return false;
+    }
+    true
+}
 
 pub fn run(ctx: &mut Ctx) {
-    ctx.report.notes.push("C17: harness not built yet".into());
+    ctx.report.rule = "cases = fresh sorted segments (mapping compared with the model) and every other segment checked; \
+        non-trivial = the sort really permuted the documents (fresh) / the segment has >= 2 docs; distinct by (type, direction, key sequence, deletes)".into();
+    ctx.report.correspondence_obligations = vec![
+        "every segment: sort keys in doc-id order sorted in the configured direction, missing first asc / last desc (oracle)".into(),
+        "every live doc = same doc in the unsorted never-merged reference (stored, norms, fast values, postings) (oracle)".into(),
+        "live docs = sequential replay (in-transaction deletes hit the same ids as unsorted) (oracle)".into(),
+        "fresh segment new→old mapping = Lean sortOrder (stable)".into(),
+        "deleted doc ids of a fresh segment = Lean deleteHits on remapped opstamps".into(),
+        "merged key sequence = Lean kmerge".into(),
+    ];
+    if let Some(c) = ctx.replay.clone() {
+        let seed: u64 = c["case_seed"].as_str().and_then(|s| s.parse().ok()).unwrap_or(0);
+        let _ = catch_unwind(AssertUnwindSafe(|| case(ctx, seed)));
+        return;
+    }
+    for _ in 0..ctx.budget(150, 6000) {
+        let s = ctx.rng.next_u64();
+        let r = catch_unwind(AssertUnwindSafe(|| case(ctx, s)));
+        if let Err(e) = r {
+            let msg = e.downcast_ref::<String>().cloned().or_else(|| e.downcast_ref::<&str>().map(|s| s.to_string())).unwrap_or_default();
+            ctx.report.violation("oracle", "C17:panic", format!("panic: {msg}"), json!({"case_seed": s.to_string()}));
+        }
+    }
 }
